@@ -370,9 +370,14 @@ pub fn run(ctx: &Ctx) -> Report {
         builder.shutdown();
         Ok(())
     };
-    if which.as_deref().map(|w| !w.starts_with("dyn-maturity/")).unwrap_or(true) {
+    if which.as_deref().map(|w| !w.starts_with("dyn-maturity/") && !w.starts_with("hardfork/")).unwrap_or(true) {
         if let Err(e) = go() {
             report.machinery_errors.push(e);
+        }
+    }
+    if which.as_deref().map(|w| w.starts_with("hardfork/")).unwrap_or(true) {
+        if let Err(e) = hardfork_family(ctx, &mut report, which.as_deref()) {
+            report.machinery_errors.push(format!("hard-fork boundary family: {e}"));
         }
     }
     if which.as_deref().map(|w| w.starts_with("dyn-maturity/")).unwrap_or(true) {
@@ -477,6 +482,81 @@ fn dyn_maturity_family(ctx: &Ctx, report: &mut Report, only: Option<&str>) -> Re
         }
     }
     report.count("dyn_maturity_candidates", 16);
+    node.shutdown();
+    Ok(())
+}
+
+
+/// A rule that switches on at an epoch boundary: the 2023 hard fork (VM version 2; scripts with
+/// hash type data2 may run) activates at epoch 2 of a flat world, i.e. with block 8.  A cell under
+/// the always-success code referenced as data2 is created in block 3; the transaction spending it
+/// is committed in block 6, 7 (refused: InvalidVmVersion), 8 and 9 (accepted).
+fn hardfork_family(ctx: &Ctx, report: &mut Report, only: Option<&str>) -> Result<(), String> {
+    let mut w = WorldOpts::default();
+    w.ckb2023_epoch = 2;
+    let cons = consensus(&w);
+    set_time(time_for_height(NOW_HEIGHT + 40));
+    let dir = ctx.scratch.join("c04-hardfork");
+    let _ = std::fs::remove_dir_all(&dir);
+    let node = Node::boot(&dir, &NodeOpts::new(cons.clone()))?;
+    node.wait_startup()?;
+    let g = genesis_cells(&cons);
+    let data2_lock = always_success_lock().as_builder().hash_type(ScriptHashType::Data2).build();
+    let fund0 = simple_tx(&cons, &g[0..1], 1, 1_000_000, 70);
+    let out0 = fund0.outputs().get(0).unwrap().as_builder().lock(data2_lock).build();
+    let fund = fund0.as_advanced_builder().set_outputs(vec![out0]).build();
+    let spend = simple_tx(&cons, &[out(&fund, 0)], 1, 1_000_000, 71);
+    for n in 1..=5u64 {
+        let mut spec = BlockSpec { miner: 1, ..Default::default() };
+        if n == 1 {
+            spec.proposals = vec![fund.proposal_short_id()];
+        }
+        if n == 3 {
+            spec.txs = vec![fund.clone()];
+        }
+        let b = assemble(&node.shared.snapshot(), &spec)?;
+        node.process(&b).map_err(|e| format!("block {n}: {e}"))?;
+    }
+    let base_tip = node.tip().hash();
+    let mut salt = 0u64;
+    for commit_at in [7u64, 8, 9, 10] {
+        salt += 1;
+        let cname = format!("hardfork/data2-lock/commit-in-{commit_at}");
+        if let Some(o) = only {
+            if o != cname {
+                continue;
+            }
+        }
+        if node.tip().hash() != base_tip {
+            node.chain().truncate(base_tip.clone()).map_err(|e| e.to_string())?;
+        }
+        for n in 6..commit_at {
+            let mut spec = BlockSpec { miner: 1, ts_offset: salt, ..Default::default() };
+            if n == commit_at - 2 {
+                spec.proposals = vec![spend.proposal_short_id()];
+            }
+            let b = assemble(&node.shared.snapshot(), &spec)?;
+            node.process(&b).map_err(|e| format!("{cname}: block {n}: {e}"))?;
+            if node.tip().hash() != b.hash() {
+                return Err(format!("{cname}: block {n} did not become the tip"));
+            }
+        }
+        let cand = assemble(&node.shared.snapshot(), &BlockSpec { miner: 2, ts_offset: salt, txs: vec![spend.clone()], ..Default::default() })?;
+        let pos = cand.epoch();
+        let want_ok = pos.number() >= 2;
+        let v = node.process(&cand);
+        report.transitions += 1;
+        report.evaluations += 1;
+        let ok = matches!(v, Ok(true));
+        let label = json!({"candidate": cname, "commit_position": pos.to_string()});
+        if ok != want_ok {
+            report.violation(format!("{}/{}", if want_ok { "valid-tx-refused-in-block" } else { "invalid-tx-accepted-in-block" }, cname), format!("block {commit_at} (epoch position {pos}) spending a cell under a data2 lock was answered {:?}; data2 scripts may run from epoch 2 on", v.as_ref().map_err(|e| e.to_string())), label.clone());
+        }
+        report.states.insert(fp(&cname));
+        report.outcomes.insert(fp(&("hardfork", ok)));
+        report.nontrivial.insert(fp(&cname));
+        report.traces += 1;
+    }
     node.shutdown();
     Ok(())
 }
